@@ -18,7 +18,7 @@ which is replayed on the real code by the unit's native driver.
 Supported C subset (anything else: RealVCError -> the job is undecided, never passed):
   [const] double|int|bool x [= e];   x = e;  x += e; x -= e; x *= e; x /= e;   if (c) {..} [else {..}|else if ..]
   expressions: numbers, identifiers, + - * /, unary -, !, && || ==> , comparisons, ?:, (double) casts,
-  cm_sqrt(e), __CPROVER_old(e) (in ensures).
+  cm_sqrt(e), cm_pow(a, b) (uninterpreted, congruence only), __CPROVER_old(e) (in ensures).
 """
 import os
 import re
@@ -242,6 +242,7 @@ class SymExec:
         self.divs = []       # (path condition, denominator term, text)
         self.axioms = []
         self.nsqrt = 0
+        self.pows = []
         self.init = {}
 
     def fresh_input(self, name, sort='Real'):
@@ -311,6 +312,20 @@ class SymExec:
                 # real square root of a non-negative argument (for a negative one the result is unconstrained)
                 self.axioms.append('(=> (>= %s 0.0) (and (>= |%s| 0.0) (= (* |%s| |%s|) %s)))' % (a, s, s, s, a))
                 return '|%s|' % s
+            if e[1] in ('cm_pow', 'pow') and len(e[2]) == 2:
+                # pow is UNINTERPRETED: a fresh real per call, made functional by Ackermann congruence axioms
+                # (equal arguments give equal results); nothing else is assumed about its values
+                a = self.term(e[2][0], pc, old)
+                b = self.term(e[2][1], pc, old)
+                for (a2, b2, s2) in self.pows:
+                    if a2 == a and b2 == b:
+                        return '|%s|' % s2
+                sname = 'pow!%d' % (len(self.pows) + 1)
+                self.decls[sname] = 'Real'
+                for (a2, b2, s2) in self.pows:
+                    self.axioms.append('(=> (and (= %s %s) (= %s %s)) (= |%s| |%s|))' % (a, a2, b, b2, sname, s2))
+                self.pows.append((a, b, sname))
+                return '|%s|' % sname
             if e[1] == '__CPROVER_old' and len(e[2]) == 1:
                 return self.term(e[2][0], pc, True)
             raise RealVCError('call of %s is outside the supported subset' % e[1])
